@@ -744,9 +744,14 @@ class TaskScenario(ScenarioData):
                 if start_date:
                     self.property[("end", self.scenarioIdx)] = start_date
                 else:
-                    # No start date - use current slot (set by dependency calculation)
+                    # No start date - use current slot (set by dependency calculation), plus the
+                    # offset inside it when the dependency bound lies mid-slot
                     slot_idx = self.currentSlotIdx if self.currentSlotIdx is not None else 0
                     date = self.project.idxToDate(slot_idx)
+                    if date is not None and self.slotStartOffset > 0:
+                        from datetime import timedelta
+
+                        date = date + timedelta(seconds=self.slotStartOffset)
                     self.property[("start", self.scenarioIdx)] = date
                     self.property[("end", self.scenarioIdx)] = date
             else:
